@@ -1674,6 +1674,8 @@ M("C15", "failed-country-still-in-denominator", RMNTF,
                 n_errors += 1''', '''            if np.isnan(needs_ratio):
                 net_pop += population
                 n_errors += 1''', "C15.ACC")
+M("C18", "R-fill-explicit-copy", PARF,
+  '''        arr = np.array(arr, dtype=float)''', '''        arr = np.array(arr, dtype=float).copy()''', None)
 # ---------------------------------------------------------------------------- runner
 
 COPY = ["src", "scenarios", "scripts", "plot_manuscript_figures.py", "tests"]
